@@ -168,6 +168,7 @@ func (c *RunnerCloserManager) Run(ctx context.Context) error {
 			return nil
 		})
 	}
+	verifPoint("closer.run.checked")
 
 	errCh := make(chan error, len(c.closers))
 	go func() {
